@@ -15,7 +15,9 @@ func init() {
 			"Not decided: arithmetic inside math/big; padding of short byte slices.",
 		"math/big and encoding/binary trusted", "DESIGN.md §3 R-ENDIAN; §4 C13",
 		func(c *Ctx) {
-			c.load("pkg/scale")
+			c.load("pkg/scale", "lib/genesis")
+			c.ruleNoFloatInt()
+			c.min("R-NOFLOATINT", 1)
 			c.ruleEndian()
 			c.ruleUint128JSONErrors()
 			c.ruleTrimZero()
